@@ -40,7 +40,9 @@
 
 #define BLK_SIZE 32768
 
-static char unknown[] = "Unknown(\0\0\0\0\0\0\0\0\0\0\0\0\0\0\0\0\0\0\0\0\0";
+/* Returned to the caller, so it cannot live on the stack; one per thread so
+ * that concurrent callers do not overwrite each other's result */
+static _Thread_local char unknown[] = "Unknown(\0\0\0\0\0\0\0\0\0\0\0\0\0\0\0\0\0\0\0\0\0";
 
 const static char *COMP_NAME[] = {
     "no",
